@@ -94,6 +94,62 @@ def gen_struct(r):
     return "\n".join(out) + "\n"
 
 
+def gen_enum(en):
+    out = []
+    copts = []
+    if en["rename_all"]:
+        copts.append('rename_all = "%s"' % en["rename_all"])
+    if en["allow_unknown"]:
+        copts.append("allow_unknown_fields")
+    if en["from_word"]:
+        copts.append("from_word = || Ok(%s::%s)" % (en["name"], [v["name"] for v in en["variants"] if S.variant_name(en, v) == en["from_word"]][0]))
+    if en["from_none"]:
+        copts.append("from_none = || Some(%s::%s)" % (en["name"], [v["name"] for v in en["variants"] if S.variant_name(en, v) == en["from_none"]][0]))
+    out.append("#[derive(Debug, Clone, FromMeta)]")
+    if copts:
+        out.append("#[darling(%s)]" % ", ".join(copts))
+    out.append("pub enum %s {" % en["name"])
+    for v in en["variants"]:
+        vo = []
+        if v["rename"]:
+            vo.append('rename = "%s"' % v["rename"])
+        if v["skip"]:
+            vo.append("skip")
+        if v["word"]:
+            vo.append("word")
+        if vo:
+            out.append("    #[darling(%s)]" % ", ".join(vo))
+        if v["kind"] == "unit":
+            out.append("    %s," % v["name"])
+        elif v["kind"] == "newtype":
+            out.append("    %s(%s)," % (v["name"], v["ty"]))
+        else:
+            out.append("    %s {" % v["name"])
+            for f in v["fields"]:
+                out.append("    " + field_attr(en, f) + "        %s: %s," % (f["name"], f["ty"]))
+            out.append("    },")
+    out.append("}")
+    arms = []
+    for v in en["variants"]:
+        if v["kind"] == "unit":
+            arms.append('            %s::%s => "{\\"v\\":\\"%s\\"}".to_string(),' % (en["name"], v["name"], v["name"]))
+        elif v["kind"] == "newtype":
+            arms.append('            %s::%s(x) => format!("{{\\"v\\":\\"%s\\",\\"0\\":{}}}", x.render()),' % (en["name"], v["name"], v["name"]))
+        else:
+            fl = ", ".join(f["name"] for f in v["fields"])
+            fmt = ",".join('\\"%s\\":{}' % f["name"] for f in v["fields"])
+            args = ", ".join("%s.render()" % f["name"] for f in v["fields"])
+            arms.append('            %s::%s { %s } => format!("{{\\"v\\":\\"%s\\",%s}}", %s),' % (en["name"], v["name"], fl, v["name"], fmt, args))
+    out.append("impl Render for %s {\n    fn render(&self) -> String {\n        match self {\n%s\n        }\n    }\n}" % (en["name"], "\n".join(arms)))
+    n = en["name"]
+    out.append("pub fn entry_%s_list_flat(items: &[NestedMeta]) -> Result<%s, Vec<darling::Error>> {\n    <%s as FromMeta>::from_list(items).map_err(|e| e.flatten().into_iter().collect())\n}" % (n, n, n))
+    out.append("pub fn entry_%s_string_flat(s: &str) -> Result<%s, Vec<darling::Error>> {\n    <%s as FromMeta>::from_string(s).map_err(|e| e.flatten().into_iter().collect())\n}" % (n, n, n))
+    out.append("pub fn entry_%s_meta_flat(item: &syn::Meta) -> Result<%s, Vec<darling::Error>> {\n    <%s as FromMeta>::from_meta(item).map_err(|e| e.flatten().into_iter().collect())\n}" % (n, n, n))
+    out.append("pub fn entry_%s_word_flat() -> Result<%s, Vec<darling::Error>> {\n    <%s as FromMeta>::from_word().map_err(|e| e.flatten().into_iter().collect())\n}" % (n, n, n))
+    out.append("pub fn entry_%s_none() -> Option<%s> {\n    <%s as FromMeta>::from_none()\n}" % (n, n, n))
+    return "\n".join(out) + "\n"
+
+
 def gen_lib():
     parts = ["// GENERATED by harness/gen_recv.py from props/recv_spec.py - do not edit",
              "#![allow(unused, non_snake_case, clippy::all)]",
@@ -101,15 +157,25 @@ def gen_lib():
              "include!(\"../../common/sexp.rs\");", "include!(\"../../common/opq.rs\");", ""]
     for r in S.STRUCTS:
         parts.append(gen_struct(r))
+    for en in S.ENUMS:
+        parts.append(gen_enum(en))
     return "\n".join(parts)
 
 
 def gen_main():
     arms = []
     marms = []
+    sarms = []
+    warms = []
     for r in S.STRUCTS:
         arms.append('        "%s" => render_result(hrecv::entry_%s_from_list(&items)),' % (r["name"], r["name"]))
         marms.append('        "%s" => render_result(hrecv::entry_%s_from_meta(&item)),' % (r["name"], r["name"]))
+    for en in S.ENUMS:
+        n = en["name"]
+        arms.append('        "%s" => render_result(<%s as darling::FromMeta>::from_list(&items)),' % (n, n))
+        marms.append('        "%s" => render_result(<%s as darling::FromMeta>::from_meta(&item)),' % (n, n))
+        sarms.append('        "%s" => render_result(<%s as darling::FromMeta>::from_string(s)),' % (n, n))
+        warms.append('        "%s" => format!("{{\\"word\\":{},\\"none\\":{}}}", render_result(<%s as darling::FromMeta>::from_word()), <%s as darling::FromMeta>::from_none().render()),' % (n, n, n))
     return """// GENERATED by harness/gen_recv.py - native runner for the receiver family
 #![allow(unused)]
 use hrecv::*;
@@ -136,6 +202,8 @@ fn run(req: &Sx) -> String {
             };
             run_meta(l[1].atom(), item)
         }
+        "from_string" => run_string(l[1].atom(), l[2].text()),
+        "word_none" => run_word(l[1].atom()),
         other => panic!("unknown request {}", other),
     }
 }
@@ -148,6 +216,20 @@ fn run_list(name: &str, items: Vec<darling::ast::NestedMeta>) -> String {
 }
 
 fn run_meta(name: &str, item: syn::Meta) -> String {
+    match name {
+%s
+        other => panic!("unknown receiver {}", other),
+    }
+}
+
+fn run_string(name: &str, s: &str) -> String {
+    match name {
+%s
+        other => panic!("unknown receiver {}", other),
+    }
+}
+
+fn run_word(name: &str) -> String {
     match name {
 %s
         other => panic!("unknown receiver {}", other),
@@ -170,7 +252,7 @@ fn main() {
         println!("{}", out);
     }
 }
-""" % ("\n".join(arms), "\n".join(marms))
+""" % ("\n".join(arms), "\n".join(marms), "\n".join(sarms), "\n".join(warms))
 
 
 CARGO = """[package]
